@@ -26,7 +26,9 @@ def main():
         for c in checks:
             t = time.time()
             r = sh("./check %s --tier %s" % (c, tier), cwd=V, env=env)
-            viol = [l for l in r.stdout.splitlines() if l.startswith("VIOLATION")]
+            outl = r.stdout.splitlines()
+            viol = [l + " " + (outl[i + 1].strip() if i + 1 < len(outl) and outl[i + 1].startswith("  detail:") else "")
+                    for i, l in enumerate(outl) if l.startswith("VIOLATION")]
             inc = [l for l in r.stdout.splitlines() if l.startswith("INCONCLUSIVE")]
             print("%s exit=%d violations=%d %s (%.0fs)" % (c, r.returncode, len(viol), ("INCONCLUSIVE: " + inc[0][:150]) if inc else "", time.time() - t))
             for l in viol[:3]:
